@@ -287,6 +287,7 @@ def run(ctx):
             f = Failure('disagreement', desc, desc['actions'], m, 'the logged sequence of shared-state actions is not an '
                         'execution of the model (lock discipline / action programs differ)', 'Vakt.C14.lock_mutex', line=line)
             f.signature = 'model:trace'
+            f.weak = True      # the sequence of shared-state accesses is internal; the property is about outcomes
             out.failures.append(f)
     out.rule = ('%d scenarios (a decision against add / delete / update of allow and deny policies, two adds of one uid, '
                 'listings against add and delete, three threads, two decisions and an update, the cached guard against '
